@@ -13,7 +13,12 @@ real DailyModel / BillingModel is fitted (worker processes), and
     from the same temperatures and usage (check_initial_box / check_final_box), and the feasibility of the generating
     parameters for that box is evaluated (C15_generator_in_box is about exactly this box);
   * the certificate  SSE(fit,y) <= SSE(truth,y) + s  is measured and written into the evidence together with the
-    bound C15_rmse_from_certificate derives from it."""
+    bound C15_rmse_from_certificate derives from it;
+  * param_gap (C15_out_of_sample_from_parameters: a sup-norm bound over a temperature range computed from the stored
+    parameters) is evaluated for every fitted model, by the harness on the implementation's own 7-vectors and by Coq on
+    the stored documents, compared, and reported.
+Known findings are attributed by cause: billing (regression dilution) and, through the OptimizedResult hook, crossed
+balance points whose read-back differs from the scored curve."""
 import json
 import os
 import time
@@ -87,17 +92,22 @@ def oracle(spec, o, m):
                  "fitting a building of the family raised %s" % o["exception"])]
     fails = []
 
-    # cause attribution through the hook: a sub-model whose stored (read-back) curve differs from the curve the
-    # optimiser scored by more than 1 % of mean usage
-    rgaps = [h["readback_gap"] for part in ("initial", "final") for h in o[part].values() if h.get("readback_gap") is not None]
-    readback_broken = bool(rgaps) and max(rgaps) > 0.01 * m["mean_in"]
+    # cause attribution through the hook (cause H of DESIGN section 6): a two-sided smooth fit whose optimiser vector has
+    # CROSSED balance points (cdd_bp < hdd_bp) with non-zero smoothing, and whose stored (read-back) curve differs from the
+    # curve the optimiser scored by more than 1 % of mean usage
+    def crossed_readback(h):
+        x = h.get("x_raw")
+        return (h.get("key") == "hdd_tidd_cdd_smooth" and x is not None and len(x) == 7 and x[3] < x[0]
+                and (x[2] != 0 or x[5] != 0) and h.get("readback_gap") is not None
+                and h["readback_gap"] > 0.01 * m["mean_in"])
+    readback_broken = any(crossed_readback(h) for part in ("initial", "final") for h in o[part].values())
 
     def cls(failure):
         s = dict(sig0, failure=failure)
         if spec["kind"] == "billing" and failure.startswith("nrmse") and spec["shape"] != "flat":
             s["finding_class"] = "billing-dilution"
         elif readback_broken:
-            s["finding_class"] = "readback-differs-from-scored"
+            s["finding_class"] = "crossed-balance-points-readback"
         return s
     if not m["nrmse_in_ok"]:
         fails.append((cls("nrmse_baseline"), "NRMSE against the generating curve on the baseline = %.4f > 0.05" % m["nrmse_in"]))
@@ -236,8 +246,11 @@ def main():
         ">= 30 hotter than the cooling one and >= 30 in the temperature-independent regime; multiplicative noise <= 1 % "
         "(uniform / clipped normal / +-1 % two-point / none); 16 time zones, any start month; second weather year = the "
         "following 365 days of the same climate, other draw, mean shifted by -3..+3 F; daily meters through DailyModel, "
-        "monthly bills (28-33 day periods) through BillingModel. quick: one building per shape + random ones; thorough: "
-        "corners and centres of the parameter ranges x shapes. distinct = building hash; non-trivial = the fit produced a model")
+        "monthly bills (28-33 day periods) through BillingModel. corpus first (the two known-finding buildings); quick: the "
+        "11 fragile corners of the family (c15lib.SENTINELS: small base load, steep or weak slopes, narrow flat band, a weak load "
+        "on barely a month of days) with fresh weather / zone / noise, one random building per shape, two billing meters; "
+        "thorough: the corners + the grid corners-and-centres of the parameter ranges x shapes + random buildings + billing. "
+        "distinct = building hash; non-trivial = the fit produced a model")
     run.assumptions += [
         "PARTIAL: the optimiser (NLopt DIRECT + SBPLX), the adaptive-loss elastic-net objective and the split selection "
         "have no Gallina model; recovery is decided per sampled building, not proved for all buildings",
